@@ -116,6 +116,10 @@ def catalogue(tier, seed):
     # two colluding peers serve the same fork, so that the second request (checkpoint with the bogus
     # state + blocks that validate against it) is fetched while the first is still being validated
     add("post", [zspec(name="z0", view="fork", forkLen=106, badAt=99, badKind="bogusstate", expect="ban"), zspec(name="z1", view="same0")], honestLen=110, deadline=60000)
+    # the same attack on the FIRST request: a bogus parent state for the honest base block, and a fork
+    # that is valid relative to the state derived from it -- only the commitment binding stops it
+    add("post", [zspec(view="fork", badAt=0, badKind="bogusbase")])
+    add("post", [zspec(view="fork", badAt=0, badKind="bogusbase", dials=True)], order="together", victimLen=2)
     if thorough:
         add("post", [zspec(view="fork", forkLen=103, badAt=99, badKind="bogusstate", expect="ban", dials=True)], honestLen=110, deadline=60000, order="together")
 
@@ -224,7 +228,12 @@ def leg_t(wd, tier, binary, verdict, scenarios=None):
     for f in os.listdir(wd):
         if f.startswith("byztrace-"):
             os.remove(os.path.join(wd, f))
-    res = run_byz(wd, binary, scs, verdict, 14 if tier == "quick" else 16, 900 if tier == "quick" else 3000)
+    scale = C12.load_scale()
+    if scale > 1.0:
+        log("  T: machine load %.1f: deadlines x %.1f" % (os.getloadavg()[0], scale))
+        for s in scs:
+            s["deadlineMs"] = int(s["deadlineMs"] * scale)
+    res = run_byz(wd, binary, scs, verdict, max(6, int((14 if tier == "quick" else 16) / scale)), 1800 if tier == "quick" else 6000)
     c = res["counts"]
     if c.get("infra", 0) > max(2, len(scs) // 20):
         raise vlib.Infra("too many scenarios could not be set up: %s" % (res.get("notes") or [])[:5])
